@@ -71,6 +71,8 @@ def cases(tier):
             for tab in itertools.product(pairs, repeat=L):
                 for sim in ((1, 2, 4) if L < 3 else (2,)):
                     yield {'k': 'ulam2', 'grid': grid, 'tab': [list(t) for t in tab], 'sim': sim}
+    for c_ in narrow_tables():
+        yield c_
     for grid, maxlen in (([2, 2, 2], 2 if not q else 1), ([1, 2, 2], 2), ([2, 1, 3], 2 if not q else 1)):
         boxes = list(itertools.product(*[range(1, g + 1) for g in grid]))
         pairs = [a + b for a in boxes for b in boxes]
@@ -78,6 +80,21 @@ def cases(tier):
             for tab in itertools.product(pairs, repeat=L):
                 for sim in (1, 4):
                     yield {'k': 'ulam3', 'grid': grid, 'tab': [list(t) for t in tab], 'sim': sim}
+
+
+def narrow_tables():
+    """transition tables stored in narrow integer types on grids with >= 12 boxes in a direction (box numbers whose products
+    exceed the type's range)"""
+    for grid in ([12, 1, 2], [2, 1, 13], [17, 2, 1], [1, 2, 17]):
+        hi = [g for g in grid]
+        for src, tgt in ((hi, hi), (hi, [1, 1, 1]), ([1, 1, 1], hi), ([max(1, g - 1) for g in grid], hi)):
+            for dt in ('int8', 'uint8', 'int16', 'int32'):
+                yield {'k': 'ulam3', 'grid': grid, 'tab': [list(src) + list(tgt), list(tgt) + list(src)], 'sim': 2, 'dt': dt}
+    for grid in ([12, 2], [2, 17]):
+        hi = list(grid)
+        for src, tgt in ((hi, hi), (hi, [1, 1]), ([1, 1], hi)):
+            for dt in ('int8', 'uint8', 'int16'):
+                yield {'k': 'ulam2', 'grid': grid, 'tab': [list(src) + list(tgt), list(tgt) + list(src)], 'sim': 2, 'dt': dt}
 
 
 def generator(ss, single, two, cyclic):
@@ -142,6 +159,10 @@ def run_case(case, seed):
         G = generator(ss, single, two, cyclic)
         s_in = [[list(x) for x in c] for c in single]; t_in = [[list(x) for x in b] for b in two]
         with r.op(key + ':call'):
+            if k == 'slim' and case['sp'] == 'each':
+                # history: the same system was assembled with a coarse threshold just before (nothing may be remembered)
+                coarse = slim.slim_mme(list(ss), [[list(x) for x in c] for c in single], [[list(x) for x in b] for b in two], threshold=0.3)
+                r.true(key + ':coarse:meta', meta_problem(coarse) is None, str(meta_problem(coarse)))
             op = slim.slim_mme(list(ss), s_in, t_in, threshold=case['thr'])
             check_generator(r, key, op, G, ss)
         r.true('slim:inputs-unchanged', s_in == [[list(x) for x in c] for c in single] and t_in == [[list(x) for x in b] for b in two])
@@ -159,7 +180,7 @@ def run_case(case, seed):
             check_generator(r, key, op, G, ss)
     else:
         grid = case['grid']; nd = len(grid)
-        tab = np.array(case['tab'], dtype=int).T        # shape (2*nd, K): columns are transitions
+        tab = np.array(case['tab'], dtype=case.get('dt', 'int64')).T        # shape (2*nd, K): columns are transitions
         N = int(np.prod(grid))
         P = np.zeros((N, N))
         for t in case['tab']:
